@@ -699,6 +699,74 @@ def _bypass(name):
 
 
 # ------------------------------------------------------------------------------ run
+
+# ------------------------------------------------------------- affine single-object values
+AFFINE_HDR = '''
+from guppylang.std.option import Option, nothing
+
+@guppy.declare
+def eat0(xs: array[int, 0] @owned) -> None: ...
+
+@guppy.declare
+def mk0() -> array[int, 0]: ...
+
+@guppy.declare
+def eatq0(xs: array[qubit, 0] @owned) -> None: ...
+
+@guppy.declare
+def eat_opt(o: Option[array[int, 2]] @owned) -> None: ...
+
+@guppy.declare
+def mk_opt() -> Option[array[int, 2]]: ...
+'''
+
+# values that are non-copyable but droppable AND stay one object while tracing (nothing to unpack)
+AFFINE_VALUES = {
+    "empty-int-array-arg": ("ea: array[int, 0] @owned", "ea", "eat0({V})"),
+    "empty-int-array-result": ("", "mk0()", "eat0({V})"),
+    "option-of-array-result": ("", "mk_opt()", "eat_opt({V})"),
+}
+
+
+def affine_cases():
+    out = []
+    for name, (param, init, use) in AFFINE_VALUES.items():
+        for n_uses in (0, 1, 2, 3):
+            body = [f"v = {init}"] + [use.format(V="v")] * n_uses
+            src = AFFINE_HDR + f"\n@guppy.comptime\ndef main({param}) -> None:\n" + "\n".join("    " + l for l in body) + "\n"
+            out.append((name, n_uses, src))
+        # use, then hand the same object to a second consumer inside a tuple
+        body = [f"v = {init}", use.format(V="v"), "t = (v, 1)", use.format(V="t[0]")]
+        src = AFFINE_HDR + f"\n@guppy.comptime\ndef main({param}) -> None:\n" + "\n".join("    " + l for l in body) + "\n"
+        out.append((name, "2-via-tuple", src))
+    return out
+
+
+def run_affine(case):
+    name, n_uses, src = case
+    return name, n_uses, run_impl(src)
+
+
+def affine_supplement(ctx):
+    """The statement: a non-copyable value can be used at most once; droppable ones may be left unused."""
+    cases = affine_cases()
+    res = ctx.pmap(run_affine, cases, chunk=2)
+    n = 0
+    for (name, n_uses, src), (_, _, out) in zip(cases, res):
+        n += 1
+        many = n_uses == "2-via-tuple" or n_uses >= 2
+        if out[0] == "crash":
+            ctx.violation(f"affine:crash:{name}", f"{name} used {n_uses}x: tracer crashed: {out[1]} {out[2]}", {"affine": [name, str(n_uses)], "src": src})
+        elif many and out[0] in ("ok", "invalid"):
+            ctx.violation(f"double-use-accepted:affine:{name}",
+                          f"a non-copyable (affine) value `{name}` is consumed {n_uses} times in a comptime body and the tracer "
+                          f"{'produces a HUGR' if out[0] == 'ok' else 'emits an INVALID HUGR (' + out[2][:120] + ')'} instead of a Guppy error",
+                          {"affine": [name, str(n_uses)], "src": src})
+        elif not many and out[0] != "ok":
+            ctx.violation(f"safe-body-rejected:affine:{name}:{n_uses}", f"{name} used {n_uses}x (allowed): {out}", {"affine": [name, str(n_uses)], "src": src})
+    return n
+
+
 def space(tier):
     """Parts of the enumerated space: (label, kinds, maxlen, minlen, with mutators).  Each
     part is enumerated completely; a body occurring in two parts is replayed once."""
@@ -717,6 +785,7 @@ def run(ctx):
     if uncovered or (covered - found):
         raise RuntimeError(f"mutator table out of date: CPython list mutators {sorted(found)} vs table {sorted(covered)}")
 
+    n_affine = affine_supplement(ctx)
     bodies = []
     parts = {}
     pruned = guarded = 0
@@ -792,6 +861,7 @@ def run(ctx):
         "rule": "non-trivial = body on which the model demands an error or the statement is silent "
                 "(the rest are safe bodies that must compile and validate)",
         "samples": samples,
+        "affine_single_object_cases": n_affine,
         "space": {k: v for k, v in parts.items()},
         "bound_depth": depth,
         "model_final_states": finals,
@@ -814,6 +884,10 @@ def run(ctx):
 
 
 def replay(ctx, item):
+    if "affine" in item:
+        out = run_impl(item["src"])
+        many = item["affine"][1] in ("2", "3", "2-via-tuple")
+        return {"violation": (out[0] == "crash") or (many and out[0] in ("ok", "invalid")) or (not many and out[0] != "ok"), "outcome": out}
     ops = [parse_op(s) for s in item["ops"]]
     r = judge(ops)
     r["source"] = gen_source(ops)
